@@ -21,7 +21,20 @@ pub fn linear_programs(dirs: &[String]) -> Vec<(String, axcut::syntax::Prog)> {
 pub fn cmd_codegen(which: &str, _seed: u64, _n: usize, out: &mut dyn Write, dirs: &[String]) {
     for (k, (name, prog)) in linear_programs(dirs).into_iter().enumerate() {
         let lc = axcut2backend::fresh_labels::fresh_label();
-        let input = format!("({} {} {})", crate::sexp::quote(&name), dbg(&prog), lc);
+        let arity = prog.defs.first().map(|d| d.context.bindings.len()).unwrap_or(0);
+        let mut rng = crate::rng::Rng::new(_seed.wrapping_add(k as u64));
+        let mut tuples = String::from("(");
+        for t in 0..4 {
+            tuples.push('(');
+            for a in 0..arity {
+                if a > 0 { tuples.push(' '); }
+                let v: i64 = match t { 0 => (a as i64) + 1, 1 => rng.below(20) as i64, 2 => -(rng.below(20) as i64), _ => rng.i64_interesting() };
+                tuples.push_str(&v.to_string());
+            }
+            tuples.push(')');
+        }
+        tuples.push(')');
+        let input = format!("({} {} {} {})", crate::sexp::quote(&name), dbg(&prog), lc, tuples);
         let p2 = prog.clone();
         let w = which.to_string();
         let res = catch(move || match w.as_str() {
